@@ -91,8 +91,10 @@ class Mon:
             self.v("%s truncated response of %d bins for width %d" % (name, len(tr), W), check="too_long", **info)
             return
         with monitor.quiet():
-            fr = np.asarray(bank.get_frequency_response(i, W))
-            hf = np.asarray(bank.get_frequency_response(i, W, half=True))
+            # (the third argument, `half`, by keyword or by position in turn)
+            fr_raw = bank.get_frequency_response(i, W) if (i + W) % 2 else bank.get_frequency_response(i, W, False)
+            hf_raw = bank.get_frequency_response(i, W, half=True) if (i + W) % 4 < 2 else bank.get_frequency_response(i, W, True)
+            fr, hf = np.asarray(fr_raw), np.asarray(hf_raw)
             try:
                 full = np.zeros(W, dtype=np.complex128)
                 if bank.is_real:
@@ -108,21 +110,6 @@ class Mon:
         if fr.shape != (W,) or not np.all(np.isfinite(fr)):
             self.v("%s.get_frequency_response(%d, %d) has shape %r / non-finite values" % (name, i, W, fr.shape), check="finite", **info)
             return
-        # a bank is a fixed set of filters: what earlier calls returned stays what it was, and asking again gives the same
-        for lab, arr in (("get_truncated_response", c.result[1]), ("get_frequency_response", fr), ("get_frequency_response(half=True)", hf)):
-            self.hist.observe(bank, arr, "%s.%s" % (name, lab), **info)
-        key = (id(bank), int(i), W, thr)
-        prev = self.last.get(key)
-        if prev is not None and prev[0]() is bank:
-            self.rec.count("repeated_calls_same_arguments")
-            if prev[1] != b or prev[2].shape != tr.shape or not np.array_equal(prev[2], tr):
-                self.v("%s.get_truncated_response(%d, %d) returned something else than the first time" % (name, i, W), check="repeat", **info)
-        else:
-            import weakref
-
-            self.last[key] = (weakref.ref(bank), b, np.array(tr, copy=True))
-            if len(self.last) > 4000:
-                self.last.clear()
         d = np.abs(full - fr)
         compact = name in ("TriangularOverlappingFilterBank", "Fbank")
         if compact:
@@ -156,6 +143,29 @@ class Mon:
         if W <= 5:
             self.rec.count("widths_2_to_5")
         self.rec.count("width_parity_%d" % (W % 2))
+        # ---- histories (after every value has been judged)
+        key = (id(bank), int(i), W, thr)
+        prev = self.last.get(key)
+        if prev is not None and prev[0]() is bank:
+            self.rec.count("repeated_calls_same_arguments")
+            if prev[1] != b or prev[2].shape != tr.shape or not np.array_equal(prev[2], tr):
+                self.v("%s.get_truncated_response(%d, %d) returned something else than the first time" % (name, i, W), check="repeat", **info)
+        else:
+            import weakref
+
+            self.last[key] = (weakref.ref(bank), b, np.array(tr, copy=True))
+            if len(self.last) > 4000:
+                self.last.clear()
+        if (int(i) + W) % 3 == 0:
+            # a client that writes into what it was given (squares a response in place, say): its own business, and the
+            # next request for the same response is answered as the first was
+            for arr in (c.result[1], fr_raw, hf_raw):
+                if isinstance(arr, np.ndarray) and arr.flags.writeable and arr.size:
+                    arr[...] = 7.0
+            self.rec.count("responses_overwritten_by_the_client")
+        # a bank is a fixed set of filters: what earlier calls returned stays what it was, and asking again gives the same
+        for lab, arr in (("get_truncated_response", c.result[1]), ("get_frequency_response", fr_raw), ("get_frequency_response(half=True)", hf_raw)):
+            self.hist.observe(bank, arr, "%s.%s" % (name, lab), **info)
 
 
 def _run_case(case, rec, mon=None):
@@ -195,7 +205,11 @@ def _run_case(case, rec, mon=None):
             for W in Ws:
                 for i in sorted({0, nf - 1, int(rng.integers(nf))}):
                     try:
-                        if (i + W) % 3 == 0:
+                        if (i + W) % 5 == 1:
+                            with monitor.strict_settings():
+                                bank.get_truncated_response(i, W)
+                            rec.count("calls_under_strict_process_settings")
+                        elif (i + W) % 3 == 0:
                             bank.get_truncated_response(filt_idx=i, width=W)
                         else:
                             bank.get_truncated_response(i, W)
